@@ -116,12 +116,60 @@ Proof.
   induction t as [ty v|d ks IH] using atree_ind2; intros b r fuel Hr Hf.
   - apply repr_tok_inv in Hr. subst. destruct fuel as [|f]; [simpl in Hf; lia|reflexivity].
   - apply repr_tree_inv in Hr. destruct Hr as (c & rs & -> & Hc & HKc & Hfd & Hrs).
-    destruct fuel as [|f]; [simpl in Hf; lia|]. simpl. rewrite Hfd. simpl in Hf.
+    destruct fuel as [|f]; [simpl in Hf; lia|]. simpl. unfold read_step. rewrite Hfd. simpl in Hf.
     assert (Hk : Forall (fun k => height k <= f) ks) by (apply fold_max_le; lia).
     rewrite (@mapM_Forall2 _ _ (read f st) rs ks); [reflexivity|].
     clear - IH Hrs Hk. revert rs Hrs. induction IH as [|k ks Hk1 Hks IH2]; intros rs Hrs; inversion Hrs; subst; constructor.
     + inversion Hk; subst. eapply Hk1; eauto.
     + inversion Hk; subst. apply IH2; auto.
+Qed.
+
+(* ---------------------------------------------------------------- fuel in binary = fuel in unary *)
+Lemma mapM_ext {A B} (g1 g2 : A -> result B) l : (forall x, g1 x = g2 x) -> mapM g1 l = mapM g2 l.
+Proof. intros H. induction l as [|x l IH]; simpl; [reflexivity|]. now rewrite H, IH. Qed.
+Lemma read_step_ext st g1 g2 r : (forall x, g1 x = g2 x) -> read_step st g1 r = read_step st g2 r.
+Proof.
+  intros H. destruct r as [ty v|d c]; simpl; [reflexivity|]. destruct (sfind c st) as [rs|]; [|reflexivity].
+  now rewrite (mapM_ext g1 g2 rs H).
+Qed.
+
+Fixpoint iter_n (n : nat) (F : (ref -> result atree) -> ref -> result atree) (g : ref -> result atree) : ref -> result atree :=
+  match n with O => g | Datatypes.S m => F (iter_n m F g) end.
+
+Section Iter.
+  Variable F : (ref -> result atree) -> ref -> result atree.
+  Hypothesis F_ext : forall g1 g2 r, (forall x, g1 x = g2 x) -> F g1 r = F g2 r.
+
+  Lemma iter_n_ext n : forall g1 g2, (forall x, g1 x = g2 x) -> forall r, iter_n n F g1 r = iter_n n F g2 r.
+  Proof. induction n as [|n IH]; intros g1 g2 H r; simpl; [apply H|]. apply F_ext. intros x. now apply IH. Qed.
+  Lemma iter_n_add a b g r : iter_n (a + b) F g r = iter_n a F (iter_n b F g) r.
+  Proof. revert r. induction a as [|a IH]; intros r; simpl; [reflexivity|]. apply F_ext. exact IH. Qed.
+  Lemma iter2_iter_n k : forall g r, iter2 k F g r = iter_n (2 ^ k) F g r.
+  Proof.
+    induction k as [|k IH]; intros g r; [reflexivity|].
+    simpl iter2. rewrite IH. replace (2 ^ Datatypes.S k) with (2 ^ k + 2 ^ k) by (simpl; lia).
+    rewrite iter_n_add. apply iter_n_ext. intros x. apply IH.
+  Qed.
+End Iter.
+
+Lemma read_iter_n st f : forall r, read f st r = iter_n f (read_step st) (fun _ => Exn OutOfFuel) r.
+Proof. induction f as [|f IH]; intros r; simpl; [reflexivity|]. apply read_step_ext. exact IH. Qed.
+
+Lemma readb_read n st r : readb n st r = read (2 ^ bits n) st r.
+Proof. unfold readb. rewrite read_iter_n. apply iter2_iter_n. intros g1 g2 x H. now apply read_step_ext. Qed.
+
+Lemma bits_bound p : Pos.to_nat p < 2 ^ bits p.
+Proof.
+  induction p as [q IH|q IH|]; simpl bits.
+  - rewrite Pos2Nat.inj_xI. simpl. lia.
+  - rewrite Pos2Nat.inj_xO. simpl. lia.
+  - simpl. rewrite Pos2Nat.inj_1. lia.
+Qed.
+
+Lemma readb_repr K st t b n r : repr K st b r t -> (b <= n)%positive -> readb n st r = Ok t.
+Proof.
+  intros Hr Hb. rewrite readb_read. eapply read_repr; [exact Hr|].
+  pose proof (repr_height Hr). pose proof (bits_bound n). apply Pos2Nat.inj_le in Hb. lia.
 Qed.
 
 (* ---------------------------------------------------------------- allocation writes fresh cells only *)
@@ -328,11 +376,11 @@ Section Deep.
     finish_parse CopyDeep x r = (x', obs) -> inv K x' /\ obs = [OParse (Ok t)].
   Proof.
     intros Hinv Hr H. unfold finish_parse, do_copy in H. simpl fst in H. simpl snd in H.
-    rewrite (read_repr Hr) in H by (unfold fuel_of; eapply repr_height; eauto). simpl in H.
+    rewrite (readb_repr Hr) in H by lia. simpl in H.
     destruct (alloc t (st_store x, st_next x)) as [[st' n'] r'] eqn:Ea.
     destruct (@alloc_fresh _ _ _ _ _ _ Ea) as (Hp & Hri & Hrt). inversion H; subst; clear H. split.
     - apply inv_push; [now apply inv_alloc_user|]. simpl. eapply ref_in_ok; [|exact Hri]. exact (@inv_K _ _ Hinv).
-    - simpl. rewrite (read_repr Hrt); [reflexivity|]. unfold fuel_of. eapply repr_height; eauto.
+    - simpl. rewrite (readb_repr Hrt) by lia. reflexivity.
   Qed.
 
   Lemma step_parse_deep K x p s x' obs :
